@@ -16,6 +16,7 @@ package l4tee
 
 import (
 	"encoding/json"
+	"errors"
 	"io"
 	"net"
 
@@ -160,6 +161,14 @@ func (nc nextConn) Read(p []byte) (n int, err error) {
 }
 
 // Interface guards
+// CloseWrite forwards a half-close to the connection that is being teed.
+func (nc nextConn) CloseWrite() error {
+	if cw, ok := nc.Conn.(interface{ CloseWrite() error }); ok {
+		return cw.CloseWrite()
+	}
+	return errors.ErrUnsupported
+}
+
 var (
 	_ caddyfile.Unmarshaler = (*Handler)(nil)
 	_ layer4.NextHandler    = (*Handler)(nil)
